@@ -549,6 +549,10 @@ class SymReal:
             if st.branch(a > 0):
                 return math.inf
             return -math.inf
+        if z3.is_app(bs) and bs.decl().kind() == z3.Z3_OP_DIV:
+            # a / (p / q) = a q / p  (p != 0 on this path, q != 0 since p / q was formed): keeps terms polynomial
+            p_, q_ = bs.children()
+            return SymReal(z3.simplify(a * q_ / p_))
         return SymReal(a / b)
 
     def __truediv__(s, o):
@@ -733,7 +737,24 @@ class SymReal:
         raise Unsupported('symbolic real cannot be concretised to float')
 
     def __int__(s):
-        raise Unsupported('int() of symbolic real')
+        """int(x): truncation towards zero; concretised by forking over the feasible integer values (each fork is the purely
+        real constraint n <= x < n + 1, so the path condition stays in nonlinear REAL arithmetic)"""
+        st = cur()
+        st.notes.append('int()')
+        for _ in range(64):
+            r = st.check(z3.BoolVal(True))
+            if r != 'sat':
+                raise Budget('cannot enumerate int() of a symbolic real')
+            v = st.model.eval(s.t, model_completion=True)
+            q = model_num(st.model, s.t)
+            n = int(q)      # Fraction -> truncation towards zero
+            lo, hi = (n, n + 1) if q >= 0 else (n - 1, n)
+            c = z3.And(s.t >= lo, s.t < hi) if q >= 0 else z3.And(s.t > lo, s.t <= hi)
+            if n == 0:
+                c = z3.And(s.t > -1, s.t < 1)
+            if st.branch(c):
+                return n
+        raise Budget('int() of a symbolic real has too many values')
 
     def __round__(s, n=None):
         """round(x, n): fresh r with |r - x| <= 0.5 * 10**-n (sound abstraction of decimal rounding)"""
